@@ -189,11 +189,20 @@ func genObserver(t *simrt.Tape) qTask {
 
 // genC04 draws a small client program for the linearizability check.  Tape
 // value 0 always means the smaller/simpler alternative.
-func genC04(t *simrt.Tape) *qProgram {
+func genC04(t *simrt.Tape, big bool) *qProgram {
 	p := &qProgram{Shape: "c04", Capacity: t.Range(1, 3)}
 	np := t.Range(1, 3)
+	maxVals := 3
+	if big {
+		// larger programs (thorough tier): the linearizability oracle is skipped
+		// beyond 48 operations, every other oracle still applies
+		p.Shape = "c04-large"
+		p.Capacity = t.Range(1, 5)
+		np = t.Range(2, 5)
+		maxVals = 6
+	}
 	for i := 0; i < np; i++ {
-		n := t.Range(1, 3)
+		n := t.Range(1, maxVals)
 		task := qTask{Role: "producer"}
 		for k := 0; k < n; k++ {
 			task.Ops = append(task.Ops, qOp{Kind: "add", Val: (i+1)*10 + k + 1})
@@ -202,12 +211,15 @@ func genC04(t *simrt.Tape) *qProgram {
 	}
 	p.Closer = t.Choose(2) == 1
 	nc := t.Range(0, 3)
+	if big {
+		nc = t.Range(1, 5)
+	}
 	for i := 0; i < nc; i++ {
 		task := qTask{Role: "consumer"}
 		if p.Closer && t.Choose(2) == 1 {
 			task.Ops = []qOp{{Kind: "drain"}}
 		} else {
-			n := t.Range(1, 3)
+			n := t.Range(1, maxVals)
 			for k := 0; k < n; k++ {
 				task.Ops = append(task.Ops, qOp{Kind: "remove"})
 			}
@@ -731,11 +743,15 @@ func (o *qOracle) checkLinearizable(hist string) {
 	if len(ops) == 0 {
 		return
 	}
-	if len(ops) > 48 {
+	limit := 48
+	if o.qr.prog.Shape == "c04-large" {
+		limit = 16 // large programs: the search cost explodes long before 48 operations
+	}
+	if len(ops) > limit {
 		o.ctx.Probe("linearizability_skipped_history_too_long")
 		return
 	}
-	r := porcupine.CheckOperationsTimeout(theFifoModel, ops, 10*time.Second)
+	r := porcupine.CheckOperationsTimeout(theFifoModel, ops, 3*time.Second)
 	switch r {
 	case porcupine.Illegal:
 		o.v("C04", "nonlinearizable", "fifo", "no FIFO order consistent with real time explains the history: "+hist)
